@@ -43,6 +43,14 @@ func c03ctx() []gen.Ctx {
 		tmpl("inner-def", 1, `(begin ((fn [] (def x #))) $1)`),
 		tmpl("defn-inside", 1, `((fn [x] (begin (defn inner [y] $1) (inner #))) #)`),
 		tmpl("cond-scope", 1, `(cond (let [x #] false) 0 $1)`),
+		// three levels: the middle function is instantiated by two activations of the outer one, and the first inner
+		// closure is called after the second one exists
+		tmpl("three-levels-two-activations", 1, `(begin (defn outer3 [x] (fn [] (fn [] $1))) (def m1 (outer3 #)) (def i1 (m1)) (def m2 (outer3 #)) (def i2 (m2)) (list (i1) (i2) (i1)))`),
+		tmpl("three-levels-setter", 1, `(begin (defn outer4 [x] (fn [] (fn [v] (begin (set x v) $1)))) (def s1 ((outer4 #))) (def s2 ((outer4 #))) (list (s1 #) (s2 #) (s1 #)))`),
+		tmpl("three-levels-defn", 1, `(begin (defn outer5 [y] (begin (defn mid [] (begin (defn inn [] $1) inn)) (mid))) (def j1 (outer5 #)) (def j2 (outer5 #)) (list (j1) (j2) (j1)))`),
+		// closures bound by def inside a per-iteration let of a loop, kept and called after the loop
+		tmpl("for-let-def-closures", 1, `(begin (def fs []) (for [(def i 0) (< i 3) (set i (+ i 1))] (let [x (* i 10)] (def g (fn [] $1)) (set fs (append fs g)))) (list ((aget fs 0)) ((aget fs 2)) ((aget fs 1))))`),
+		tmpl("fn-for-let-def-closures", 1, `((fn [] (begin (def fs []) (for [(def i 0) (< i 3) (set i (+ i 1))] (let [y (* i 10)] (def g (fn [] $1)) (set fs (append fs g)))) (list ((aget fs 0)) ((aget fs 2)) ((aget fs 1))))))`),
 		// a closure made in a block that is still empty; the block gets its binding afterwards
 		tmpl("closure-then-def-newscope", 1, `((fn [] (newScope (def g (fn [] $1)) (def x #) (g))))`),
 		tmpl("closure-then-def-let", 1, `((fn [] (let [] (def g (fn [] $1)) (def y #) (g))))`),
@@ -69,8 +77,8 @@ func init() {
 	engine.Register(&engine.Check{
 		ID:    "C03",
 		Level: "exploration",
-		Rule: "scope skeletons over the name pool {x,y}: chains of 33 contexts (functions called immediately / returned / stored / passed, defn inside functions, let, letseq, newScope, for, tail loops, " +
-			"sibling closures sharing a variable, one creator called twice, caller-local decoys, closures made in a still-empty block that is bound afterwards) to length 3 (thorough 4) over 6 leaves that read or write x and y; every binding site binds a distinct integer; " +
+		Rule: "scope skeletons over the name pool {x,y}: chains of 38 contexts (functions called immediately / returned / stored / passed, defn inside functions, let, letseq, newScope, for, tail loops, " +
+			"sibling closures sharing a variable, one creator called twice, caller-local decoys, closures made in a still-empty block that is bound afterwards, three nesting levels with two activations, closures bound inside per-iteration lets) to length 3 (thorough 4) over 6 leaves that read or write x and y; every binding site binds a distinct integer; " +
 			"value compared with the reference evaluator; distinct_nontrivial = distinct (shape, value) pairs",
 		Assumptions: []string{"R1's textbook lexical scoping is the oracle; bindings are integers only (the re-def type rule is not exercised)"},
 		Run: func(c *engine.Ctx) {
